@@ -487,6 +487,7 @@ static void apply_quarantine(std::vector<Op>& ops) {
   ops.swap(out);
 }
 
+static long g_run_index = -1;   // index of the run inside its batch (set by the batch loop)
 static Plan gen_plan(uint64_t runseed) {
   Plan p;
   p.engine = O.engine;
@@ -537,12 +538,17 @@ static Plan gen_plan(uint64_t runseed) {
       int k = O.tier == "thorough" ? rp.range(2500, 3900) : rp.range(1500, 3000);
       int nf = rp.chance(3, 5) ? 1 : rp.range(2, 3), focus[3];
       for (int j = 0; j < nf; j++) focus[j] = (int)rp.below(g_nqueries);
+      // the first focus function rotates through all entry points with the run index instead of being drawn: a defect
+      // that needs hundreds of calls of ONE function is otherwise reached by two or three runs of a quick check, or none
+      if (g_run_index >= 0) focus[0] = (int)(((uint64_t)g_run_index * 37u + (uint64_t)(O.seed % 131)) % (uint64_t)g_nqueries);
+      if (splitmix64(runseed ^ tag_of("reuse-long")) % 2 == 0) p.reuse = 1;   // caller buffers and heap blocks repeat their addresses in half of these
       for (int i = 0; i < k; i++) {
         Op o = gen_query_op_for(rp, p.next_id++, focus[rp.below(nf)]);
         o.keep = 0;
         o.selfc = 1;
         o.probe = (i >= k - 8 || rp.chance(1, 200)) ? 1 : 0;   // few fresh-process references (computed on demand); oracle 1b covers every op
         ops.push_back(o);
+        if (rp.chance(1, 10)) { Op e = o; e.id = p.next_id++; e.probe = 0; ops.push_back(e); }   // echo: the very same call again at once
       }
     } else if (O.batch == "perm") {
       int k = std::min<int>(O.max_ops * 4, (int)g_catalogue.size());
@@ -1368,6 +1374,7 @@ int main(int argc, char** argv) {
       const TStratum& ts = O.tier == "thorough" ? g_tstrata[(size_t)i % g_tstrata.size()] : g_tstrata[(size_t)((uint64_t)i * 2654435761ULL % g_tstrata.size())];
       one_run(tstratum_plan(ts, runseed), i);
     } else {
+      g_run_index = i;
       Plan p = gen_plan(runseed);
       one_run(p, i);
     }
